@@ -30,17 +30,36 @@ pub fn swarm() -> Swarm {
 struct ParamsA {
     rt: RtCfg,
     rounds: usize,
-    /// per round: (use park_timeout(long)?, unparker context, dally before unpark, extra unparks)
-    round: Vec<(bool, Ctx, u32, u32)>,
+    /// per round: (park_timeout duration in ns, 0 = plain park; unparker context; dally before
+    /// unpark; extra unparks; virtual delay of the unparker). A short timeout that is beaten by
+    /// the unpark leaves its timer armed: it fires into a later round
+    round: Vec<(u64, Ctx, u32, u32, u64)>,
 }
 
 fn gen_a(seed: u64) -> ParamsA {
     let mut r = gen_rng(seed);
     let rt = RtCfg::gen(&mut r, 3);
     let rounds = r.range(1, 4) as usize;
-    let round = (0..rounds)
-        .map(|_| (r.chance(1, 3), Ctx::gen(&mut r), r.below(12) as u32, if r.chance(1, 5) { 1 } else { 0 }))
+    let round: Vec<(u64, Ctx, u32, u32, u64)> = (0..rounds)
+        .map(|_| {
+            let timeout = match r.below(6) {
+                0 | 1 => 3_600_000_000_000u64,
+                2 => *r.pick(&[1_000_000u64, 2_000_000]),
+                _ => 0,
+            };
+            let delay = if r.chance(1, 3) { *r.pick(&[990_000u64, 1_000_000, 1_010_000, 2_000_000]) } else { 0 };
+            (timeout, Ctx::gen(&mut r), r.below(12) as u32, if r.chance(1, 5) { 1 } else { 0 }, delay)
+        })
         .collect();
+    let mut round: Vec<(u64, Ctx, u32, u32, u64)> = round;
+    if r.chance(1, 4) && rounds >= 2 {
+        // aimed sequence: a short timed park beaten by its unpark (the timer stays armed), then a
+        // plain park whose unpark arrives just when that stale timer fires
+        let d = *r.pick(&[1_000_000u64, 2_000_000]);
+        round[0] = (d, Ctx::gen(&mut r), r.below(4) as u32, 0, 0);
+        let back = *r.pick(&[0u64, 0, 1_000, 3_000, 10_000, 30_000]);
+        round[1] = (0, Ctx::gen(&mut r), r.below(6) as u32, 0, d - back);
+    }
     ParamsA { rt, rounds, round }
 }
 
@@ -63,14 +82,14 @@ pub fn run_a(seed: u64, mut ov: impl FnMut(&mut engine::Cfg)) -> ! {
         let started = started.clone();
         let handle = handle.clone();
         let rounds_done = rounds_done.clone();
-        let spec: Vec<bool> = p.round.iter().map(|r| r.0).collect();
+        let spec: Vec<u64> = p.round.iter().map(|r| r.0).collect();
         actors.push(rt::spawn_actor(Ctx::Co, "parker", move || {
             *handle.lock().unwrap() = Some(coroutine::current());
             for (i, timed) in spec.iter().enumerate() {
                 let op = OPS.begin(format!("park round {}", i));
                 rt::set_flag(&started[i]);
-                if *timed {
-                    coroutine::park_timeout(Duration::from_secs(3600));
+                if *timed != 0 {
+                    coroutine::park_timeout(Duration::from_nanos(*timed));
                 } else {
                     coroutine::park();
                 }
@@ -79,7 +98,7 @@ pub fn run_a(seed: u64, mut ov: impl FnMut(&mut engine::Cfg)) -> ! {
             }
         }));
     }
-    for (i, (_, ctx, dally, extra)) in p.round.iter().cloned().enumerate() {
+    for (i, (_, ctx, dally, extra, delay)) in p.round.iter().cloned().enumerate() {
         let started = started.clone();
         let handle = handle.clone();
         actors.push(rt::spawn_actor(ctx, &format!("unparker{}", i), move || {
@@ -89,6 +108,9 @@ pub fn run_a(seed: u64, mut ov: impl FnMut(&mut engine::Cfg)) -> ! {
                 if rt::wait_flag(&started[i], 2000) {
                     break;
                 }
+            }
+            if delay > 0 {
+                rt::nap(delay);
             }
             rt::dally(dally);
             let co = handle.lock().unwrap().clone().expect("handle published");
